@@ -2148,3 +2148,65 @@ class CharacterReferenceInRcdata:
     @ensures("C02")
     def follows_the_standard(old, self, result):
         return _after_reference(old, self, result, "rcdataState")
+
+
+# ---- HTMLTokenizer.__iter__: draining the queue ---------------------------------------------------------------------
+# One arbitrary turn of the outer loop: the current state method runs once (abstract: it queues up to two tokens and the
+# stream records up to one error; by the state contracts above a state that answers False -- end of input -- queues
+# nothing), then every stream error is yielded as a ParseError token and every queued token is yielded, in order, and
+# both queues are empty again.  Bounded by the number of tokens one state call queues (the real maximum is 3).
+def _iter_havoc(S, L):
+    t = L.self
+    t.fields["tokenQueue"] = S.list([], cls="deque")
+    t.fields["stream"].fields["errors"] = S.list([])
+
+
+def _iter_inv(self):
+    return len(self.tokenQueue) == 0 and len(self.stream.errors) == 0
+
+
+def _iter_step(yielded, self):
+    want = self.ghost_queued
+    errs = self.ghost_errors
+    if len(yielded) != len(errs) + len(want):
+        return False
+    for i in range(len(errs)):
+        if not (yielded[i]["type"] == PARSEERROR and yielded[i]["data"] == errs[i]):
+            return False
+    for i in range(len(want)):
+        if not same_object(yielded[len(errs) + i], want[i]):
+            return False
+    return len(self.tokenQueue) == 0 and len(self.stream.errors) == 0
+
+
+_iter_step._bounded = "one state call queues at most 2 tokens and the stream records at most 1 error"
+
+
+@contract(TOK + ".__iter__")
+class TokenizerIter:
+    props = ("C02",)
+    modular = False
+
+    def inputs(S):
+        from pyvc.values import NativeFn
+        stream = S.abstract("Stream", {"errors": S.list([])})
+        t = S.obj(TOK, stream=stream, tokenQueue=S.list([], cls="deque"), ghost_queued=S.list([]), ghost_errors=S.list([]))
+
+        def state(I, args, kwargs):
+            k = S.choice(3)
+            e = S.choice(2)
+            toks = [S.dict({"type": S.int("type%d" % i), "data": S.str("data%d" % i)}) for i in range(k)]
+            errs = [S.str("errorcode")] if e else []
+            t.fields["tokenQueue"].items.extend(toks)
+            stream.fields["errors"].items.extend(errs)
+            t.fields["ghost_queued"] = S.list(list(toks))
+            t.fields["ghost_errors"] = S.list(list(errs))
+            more = S.bool("more_input")
+            if k or e:
+                S.assume(more.z)          # a state that reports the end of input has queued nothing (state contracts)
+            return more
+        t.fields["state"] = NativeFn("state", state)
+        return dict(self=t)
+
+    loops = {"While1": LoopSpec(havoc=_iter_havoc, invariant=_iter_inv, props=("C02",),
+                                step=[clause("errors_then_tokens_in_order", _iter_step, "C02")])}
